@@ -6,7 +6,7 @@ from tie import framework as fw
 from tie.framework import g_bool, g_list, g_nat, g_pair, g_str, g_Z
 
 PROP = "C08"
-IMPORTS = "From JV Require Import Lib.Base Model.C08Heap Spec.C08FrameSpec Corr.C08Judge."
+IMPORTS = "From JV Require Import Lib.Base Model.C08Heap Model.C08Inst Spec.C08FrameSpec Corr.C08Judge."
 RULE = ("one API call {get_defaults, parse_object(dict|Namespace), parse_string, parse_path, validate, dump(skip_validation?), "
         "save(existing file?), merge_config, strip_unknown, instantiate_classes} on a seeded random parser (2-5 arguments of type "
         "int, str, Optional, List, Dict[str,.], Tuple with lists/dicts inside, nested up to depth 3; defaults are caller-owned "
@@ -15,9 +15,15 @@ RULE = ("one API call {get_defaults, parse_object(dict|Namespace), parse_string,
         "with one container shared between two keys. Before/after: deep snapshot (value, type, identity of every nested "
         "container) of every argument and every declared default, get_defaults(), cwd, os.environ, argparse.Namespace, the 7 "
         "parser ContextVars, current_path_dir, sub_defaults. non-trivial = the objects handed over contain >= 2 containers; "
-        "distinct = distinct (parser, objects, call)")
+        "distinct = distinct (parser, objects, call). Plus 'instantiate twice' cases: a seeded random parser with 1-4 arguments of "
+        "type Base / Optional[Base] / List[Base] (test classes Unit, Leaf, Node, Pair, Bag, Deep; Pair and Deep take their sub-objects "
+        "from SIGNATURE DEFAULTS, some arguments have lazy_instance defaults), a random configuration of nested class_path/init_args "
+        "specs (depth <= 3) is parsed, instantiate_classes is called twice on it and the identity of every built object (numbered by "
+        "first appearance, objects of the family alive before the calls first) is reported; non-trivial = at least 2 specs")
 TRUSTED = [
     "Coq 8.16.1 kernel + vm_compute",
+    "tie/impl/c08_inst.py + tie/impl/c08_classes.py (walk the built object trees, number identities by first appearance)",
+    "hand-written model coq/Model/C08Inst.v (object identity as an allocation counter)",
     "tie/impl/c08_heap.py (builds the objects, takes the identity-aware snapshots) and the Gallina printer in tie/props/c08.py",
     "hand-written model coq/Model/C08Heap.v, tied by per-case agreement (outcome, write set, aliasing of the result) evaluated inside Coq",
 ]
@@ -29,6 +35,48 @@ ASSUMPTIONS = [
 ]
 EXHAUSTIVE = {"quick": False, "thorough": False}
 FINDING_CLASSES = {1: "parse-object-adapts-in-place", 2: "container-below-tuple-shared"}
+# "judge": the pinned tree (faithful model, the two finding classes above; class 9 = fails differently from the listed
+# finding => violation).  "judge_fixed": the tree with fixes/C08-container-below-tuple-shared.patch and
+# fixes/C08-parse-object-adapts-in-place.patch applied (model run_op_fixed, no guard, no finding class).
+# The lead flips the default when both patches have landed; VERIF_C08_JUDGE overrides it for trial runs.
+JUDGE = os.environ.get("VERIF_C08_JUDGE", "judge")
+
+META = {
+    "level_text": (
+        "Heap model of what the API does to the objects it is handed (coq/Model/C08Heap.v: lists, dicts and Namespaces are heap "
+        "cells, tuples are immutable values that may contain cells; recreate_branches/clone/strip_meta, the element write-backs of "
+        "adapt_typehints for int/str/Optional/List/Dict[str,.]/Tuple, _apply_actions, _check_value_key and the try/finally regions "
+        "parser_context, change_to_path_dir, patch_namespace written in the shape of the code). Proved for ALL parsers, heaps of any "
+        "size/nesting (sharing and cycles allowed), all ten operations {get_defaults, parse_object, parse_string, parse_path, "
+        "validate, dump, save, merge_config, strip_unknown, instantiate_classes}, success, failure at any point, or fuel exhaustion: "
+        "C08_frame / C08_frame_loc (every pre-existing object - arguments, declared defaults, anything else - has afterwards exactly "
+        "the content it had, under the guard `no mutable container below a tuple; parse_object given a dict without nested "
+        "containers`), C08_brackets_restore (no guard: cwd, argparse.Namespace, the seven parser ContextVars, current_path_dir, "
+        "sub_defaults, os.environ are as before after every call), C08_region_without_finally_leaks, C08_defaults_untouched "
+        "(get_defaults returns only freshly allocated containers). The unguarded statement is false on the pinned tree: "
+        "C08_parse_object_mutates_refuted, C08_parse_object_failure_mutates_refuted, C08_dump_tuple_refuted, "
+        "C08_get_defaults_shares_refuted (two open findings). For the tree with the two fix patches the same model with "
+        "recreate_branches rebuilding tuples and parse_object copying its argument satisfies the statement with NO guard: "
+        "C08_fixed_frame, C08_fixed_frame_loc, C08_fixed_brackets_restore, C08_fixed_defaults_untouched. Second sentence of the "
+        "property (coq/Model/C08Inst.v: configurations are trees of scalars, lists and class_path/init_args specs of any size, "
+        "identity = the n-th object built): C08_instantiate_twice_fresh / _pairwise_distinct / _spec (two instantiate_classes calls "
+        "build one object per spec each, all pairwise distinct, none pre-existing), C08_cached_instantiate_refuted. Correspondence: one real "
+        "API call per case on seeded random parsers/arguments (~30% failing calls), deep identity-aware snapshots of every argument "
+        "and declared default, get_defaults(), cwd, os.environ, argparse.Namespace and the context variables before/after; Coq "
+        "computes model agreement (outcome, write set, aliasing of the result) and spec agreement per case; plus 'instantiate twice' "
+        "cases on parsers with subclass-typed arguments (specs given, lazy_instance parser defaults, specs derived from signature "
+        "defaults) where the identities of all built objects are compared with the model."),
+    "level_note": (
+        "Partial: not modelled and not proved - parse_args on argument-string lists, format_help, config files, env parsing, links, "
+        "subcommands, meta keys, Set types, the effect of parse/validate/dump on class_path/init_args specs (the heap model has no "
+        "class types; the instantiation model abstracts the parser away and only says which objects are built), custom instantiators, "
+        "user objects with __eq__/__deepcopy__, threads. os.environ is observed but never written by the modelled code. "
+        "Single calls only are run against the implementation (histories follow in the model by composing the per-call invariant, "
+        "parser-internal caches between calls are not tied). Trusted: Coq kernel/VM, the snapshot harness tie/impl/c08_heap.py and "
+        "the Gallina printer, the hand-written model outside the sampled cases. Print Assumptions: closed under the global context."),
+    "technique": "Rocq proof: Hoare-style region invariant (old region unchanged, new region closed) over a monadic heap model, "
+                 "try/finally brackets by structural induction; vm_compute refutation witnesses; per-case correspondence judged in Coq",
+}
 
 I, S = "int", "str"
 TYPES = [
@@ -235,15 +283,90 @@ def fixed_cases():
     return cs
 
 
+# ---- "instantiate twice" cases ----------------------------------------------------------------------
+def gen_spec(rng, depth):
+    r = rng.random()
+    if depth <= 0 or r < 0.3:
+        if rng.random() < 0.25:
+            return {"cls": "Unit", "args": {}}                 # a class without parameters
+        return {"cls": "Leaf", "args": ({"x": rng.randint(0, 9)} if rng.random() < 0.7 else {})}
+    if r < 0.5:
+        return {"cls": "Node", "args": {"child": gen_spec(rng, depth - 1), "n": rng.randint(0, 9)}}
+    if r < 0.7:
+        args = {}
+        if rng.random() < 0.4:
+            args["left"] = gen_spec(rng, depth - 1)
+        if rng.random() < 0.5:
+            args["right"] = gen_spec(rng, depth - 1)
+        return {"cls": "Pair", "args": args}               # what is not given comes from the signature defaults
+    if r < 0.9:
+        return {"cls": "Bag", "args": {"elems": [gen_spec(rng, depth - 1) for _ in range(rng.randint(0, 3))]}}
+    return {"cls": "Deep", "args": ({} if rng.random() < 0.7 else {"inner": gen_spec(rng, depth - 1)})}
+
+
+def inst_case(rng):
+    decls, cfg = [], {}
+    for key in PKEYS[: rng.randint(1, 4)]:
+        kind = rng.choice(["base", "base", "optbase", "listbase"])
+        dflt = None
+        if kind != "listbase" and rng.random() < 0.35:
+            dflt = gen_spec(rng, 1)
+        decls.append([key, kind, dflt])
+        given = rng.random() < (0.8 if dflt is None else 0.4)
+        if kind == "listbase":
+            cfg[key] = [gen_spec(rng, 2) for _ in range(rng.randint(0, 3))]
+        elif given or (kind == "base" and dflt is None):
+            cfg[key] = gen_spec(rng, rng.randint(0, 3))
+    return {"kind": "inst", "decls": decls, "cfg": cfg}
+
+
+def fixed_inst_cases():
+    leaf = {"cls": "Leaf", "args": {"x": 3}}
+    return [
+        {"kind": "inst", "decls": [["a", "base", None]], "cfg": {"a": leaf}},
+        {"kind": "inst", "decls": [["a", "base", None], ["b", "base", None]], "cfg": {"a": {"cls": "Unit", "args": {}}, "b": {"cls": "Unit", "args": {}}}},
+        {"kind": "inst", "decls": [["a", "base", None]], "cfg": {"a": {"cls": "Pair", "args": {}}}},          # signature default
+        {"kind": "inst", "decls": [["a", "base", {"cls": "Deep", "args": {}}]], "cfg": {}},                    # parser default, nested defaults
+        {"kind": "inst", "decls": [["a", "listbase", None], ["b", "optbase", None]],
+         "cfg": {"a": [leaf, leaf, {"cls": "Bag", "args": {"elems": [leaf, leaf]}}]}},                         # equal specs, distinct objects
+    ]
+
+
+def is_inst(case):
+    return case.get("kind") == "inst"
+
+
 def generate(rng, tier):
     cases = fixed_cases()
     n = 1500 if tier == "quick" else 25000
     for _ in range(n):
         cases.append(one_case(rng))
+    cases += fixed_inst_cases()
+    for _ in range(150 if tier == "quick" else 2500):
+        cases.append(inst_case(rng))
     return cases
 
 
-def observe(cases):
+def observe(all_cases):
+    idx_i = [n for n, c in enumerate(all_cases) if is_inst(c)]
+    idx_h = [n for n, c in enumerate(all_cases) if not is_inst(c)]
+    out = [None] * len(all_cases)
+    if idx_h:
+        for n, o in zip(idx_h, observe_heap([all_cases[n] for n in idx_h])):
+            out[n] = o
+    if idx_i:
+        ics = [all_cases[n] for n in idx_i]
+        nproc = 4
+        res = fw.run_impl_parallel("c08_inst.py", [{"cases": ics[i::nproc]} for i in range(nproc)])
+        got = [None] * len(ics)
+        for k, r in enumerate(res):
+            got[k::nproc] = r
+        for n, o in zip(idx_i, got):
+            out[n] = o
+    return out
+
+
+def observe_heap(cases):
     nproc = 16
     chunks = [cases[i::nproc] for i in range(nproc)]
     base = fw.scratch_dir("c08")
@@ -339,7 +462,31 @@ def go(o):
     return "OCut"
 
 
+def g_ival(t):
+    (k, x), = t.items()
+    if k == "i":
+        return "(IInt %s)" % g_Z(x)
+    if k == "spec":
+        return "(ISpec %s %s)" % (g_str(x[0]), g_ivals(x[1]))
+    return "(IList %s)" % g_ivals(x)
+
+
+def g_ivals(xs):
+    r = "INil"
+    for x in reversed(xs):
+        r = "(ICons %s %s)" % (g_ival(x), r)
+    return r
+
+
 def term(case, obs):
+    if is_inst(case):
+        return ("InstCase {| i_ok := %s; i_c := %s; i_cfg := %s; i_ids1 := %s; i_ids2 := %s; i_cfg_same := %s |}" % (
+            g_bool(obs["ok"]), g_nat(obs["c"]), g_ivals(obs["tree"]["list"]), g_list([g_nat(i) for i in obs["ids1"]], "nat"),
+            g_list([g_nat(i) for i in obs["ids2"]], "nat"), g_bool(obs["cfg_same"])))
+    return "HeapCase " + heap_term(case, obs)
+
+
+def heap_term(case, obs):
     parser = g_list(["{| d_key := %s; d_ty := %s; d_dflt := %s |}" % (g_str(k), gty(t), gv(d)) for k, t, d in case["parser"]], "decl")
     return ("{| c_parser := %s; c_heap := %s; c_op := %s; c_ok := %s; c_result := %s; c_after := %s; c_globals := %s; "
             "c_defaults_same := %s |}" % (
@@ -349,11 +496,15 @@ def term(case, obs):
 
 
 def nontrivial_key(case, obs):
+    if is_inst(case):
+        return None if len(obs["ids1"]) < 2 else repr((case["decls"], case["cfg"]))
     n = len(case["heap"]) + len(case["op"].get("cells", []))
     return None if n < 2 else repr((case["parser"], case["heap"], case["op"]))
 
 
 def category(case, obs):
+    if is_inst(case):
+        return "instantiate_twice/%s" % ("ok" if obs["ok"] else "raised")
     return "%s/%s" % (case["op"]["op"], "ok" if obs["ok"] else "raised")
 
 
@@ -362,6 +513,11 @@ GLOBAL_NAMES = ["cwd", "argparse.Namespace", "parent_parser", "lenient_check", "
 
 
 def describe(case, obs):
+    if is_inst(case):
+        return {"parser(key,kind,default spec)": case["decls"], "configuration given": case["cfg"],
+                "parsed configuration as spec tree": obs["tree"], "objects of the family alive before": obs["c"],
+                "identities built by call 1 (post-order)": obs["ids1"], "identities built by call 2": obs["ids2"],
+                "configuration unchanged": obs["cfg_same"], "returned": obs["ok"], "exception": obs.get("exc", "")}
     changed = [n for n, o in enumerate(obs["after"]) if not unchanged(case["heap"][n], o)]
     return {"parser(key,type,default)": case["parser"], "objects_before(loc->content; r=reference to loc)": case["heap"],
             "call": case["op"], "returned": obs["ok"], "exception": obs.get("exc", ""), "result(old=l: the caller's object l)": obs["result"],
@@ -386,6 +542,12 @@ def unchanged(cell, o):
 
 def shrink(case):
     """drop one key of a top-level argument object, or one parser argument"""
+    if is_inst(case):
+        for i in range(len(case["decls"])):
+            if len(case["decls"]) > 1:
+                k = case["decls"][i][0]
+                yield dict(case, decls=case["decls"][:i] + case["decls"][i + 1:], cfg={a: b for a, b in case["cfg"].items() if a != k})
+        return
     op = case["op"]
     for name in ("a", "b"):
         if name in op and "r" in op[name]:
